@@ -34,7 +34,8 @@ func (Prop) Rule() string {
 	return "E2, GCM: full product plaintext length (quick 0..223, thorough 0..600) x AAD length {0..33,63..65,127..129,8191..8193 (+143..145,255..257 thorough)} x " +
 		"(nonce size, tag size) in {1..20,32,64,128}x{16} u {12}x{12..15} x Seal dst mode {nil, 5-byte prefix with exactly fitting capacity ending at a guard page, in place, prefix with too small capacity} " +
 		"x Open dst mode (same four), for the AEAD the SM4 block selects itself (native) and for crypto/cipher's generic GCM over a wrapper hiding NewGCM/NewCTR (hidden; quick tier: AAD lengths {0,1,13,15,16,17,32,33,64,129,8192} only); " +
-		"oracle: Seal output = reference ciphertext||tag, dst prefix untouched, inputs unmodified, Open(reference ciphertext) = plaintext with nil error. " +
+		"oracle: Seal output = reference ciphertext||tag, dst prefix untouched, inputs unmodified, Open(reference ciphertext) = plaintext with nil error; every slice handed to the library ends at a PROT_NONE page, " +
+		"a fault on such a page (read or write past the end of the slice) is converted into a recoverable panic with debug.SetPanicOnFault and reported as access-past-end-of-slice without losing the rest of the case. " +
 		"Counter wrap: for nonce sizes {16,17,18,19,20,32,64,128} the nonce is constructed (first block solved through GHASH linearity, H inverted by exponentiation) so that J0 = upper96 || low32 " +
 		"for every low32 in 0xfffffff0..0xffffffff and two upper patterns (all ff, mixed), x every plaintext length of the tier x AAD {0,5}. " +
 		"Long messages (thorough): 1023..1025, 4095..4097, 8191..8193. " +
